@@ -448,7 +448,7 @@ def floors(ctx):
     q = ctx.tier == "quick"
     return {"evaluations": 5000 if q else 50000, "histories": 200 if q else 2000, "cache_hits": 1000 if q else 10000,
             "histories_shared_metaclass": 20, "histories_subclassing": 20, "histories_custom_hashfunc": 20,
-            "histories_falsy_instances": 20, "histories_init_mutates_arguments": 20}
+            "histories_falsy_instances": 20, "histories_init_mutates_arguments": 20, "mass_distinct_keys": 500000}
 
 
 def judge(ctx, ops):
@@ -496,10 +496,44 @@ def probe_keyword_named_cls(ctx):
             return
 
 
+def mass_distinct_keys(ctx, rng, n):
+    """
+    n different keys must yield n different instances.  The keys are 12-digit ints passed by keyword and, in a second
+    class, positionally: all encodings have the same length, so only the full value tells them apart - a key that
+    keeps a 32-bit (or shorter) fingerprint of its arguments collides somewhere among a few hundred thousand of them
+    (birthday bound: n^2 / 2^33 expected collisions).
+    """
+    class ByKeyword(metaclass=singleton.semi_singleton_metaclass()):
+        def __init__(self, **kw):
+            self.kw = kw
+
+    class ByPosition(metaclass=singleton.semi_singleton_metaclass()):
+        def __init__(self, *a):
+            self.a = a
+
+    values = set()
+    while len(values) < n:
+        values.add(rng.randrange(10 ** 11, 10 ** 12))
+    values = sorted(values)
+    for label, make, read in (("keyword", lambda v: ByKeyword(uid=v), lambda o: o.kw["uid"]),
+                              ("positional", lambda v: ByPosition(v), lambda o: o.a[0])):
+        objs = [make(v) for v in values]
+        ctx.evaluated(n)
+        ctx.count("mass_distinct_keys", n)
+        wrong = next(((v, read(o)) for v, o in zip(values, objs) if read(o) != v), None)
+        if wrong or len({id(o) for o in objs}) != n:
+            ctx.violation(f"construct:new_key_returned_existing:mass_distinct_keys:{label}",
+                          f"{n} different 12-digit {label} arguments produced {len({id(o) for o in objs})} distinct instances"
+                          + (f"; e.g. the call with {wrong[0]} returned the instance built for {wrong[1]}" if wrong else ""),
+                          {"mass": n, "label": label})
+    del objs
+
+
 def run(ctx):
     rng = random.Random(ctx.seed * 1299709 + ctx.shard * 11 + 17)
     if ctx.shard == 0:
         probe_keyword_named_cls(ctx)
+        mass_distinct_keys(ctx, random.Random(ctx.seed + 1717), 300000 if ctx.tier == "quick" else 600000)
     quick = ctx.tier == "quick"
     pre = prelude()
     for n, ops in enumerate(pre):
@@ -519,6 +553,11 @@ def run(ctx):
 
 
 def replay(ctx, case):
+    if case.get("mass"):
+        mass_distinct_keys(ctx, random.Random(ctx.seed + 1717), case["mass"])
+        ctx.nontrivial("replay-a")
+        ctx.nontrivial("replay-b")
+        return
     if case.get("probe") == "keyword_named_cls":
         probe_keyword_named_cls(ctx)
         ctx.nontrivial("replay-a")
